@@ -130,21 +130,25 @@ inductive Riser where
   | unused | waiting | started | ended
 deriving Repr, DecidableEq, Inhabited
 
-/-- `write_riser_for_line`: output and new state -/
+/-- `write_riser_for_line` (repaired): output and new state.  A highlight that starts above
+the current line is started; the riser starts on the source row of the start line (column 0)
+or below the highlight's own start mark row, and ends on its own end mark row. -/
 def writeRiser (paint : Style → String → String) (color : Bool) (h : Highlight) (line : Nat) (st : Riser)
     (active : Bool) : String × Riser :=
+  let st := if st == .waiting && line > h.span.s.line then Riser.started else st
+  let st := if st == .started && line > h.span.e.line then Riser.ended else st
   match st with
   | .unused => ("", .unused)
   | .ended => (" ", .ended)
   | .waiting =>
-    if !active && h.span.s.col == 0 && !h.hasMessageForLine line then
+    if line == h.span.s.line && !active && h.span.s.col == 0 && !h.hasMessageForLine line then
       ((if color then paint ⟨h.mtype.color, false⟩ "/" else "/"), .started)
-    else if h.hasMessageForLine line then (" ", .started)
+    else if line == h.span.s.line && active then (" ", .started)
     else (" ", .waiting)
   | .started =>
-    if !active && h.span.e.col == 0 && !h.hasMessageForLine line then
+    if line == h.span.e.line && !active && h.span.e.col == 0 && !h.hasMessageForLine line then
       ((if color then paint ⟨h.mtype.color, false⟩ "\\" else "\\"), .ended)
-    else if active && h.hasMessageForLine line then ("|", .ended)
+    else if line == h.span.e.line && active then ("|", .ended)
     else ("|", .started)
 
 /-- risers of all highlights for one row; `activeIdx` = index of the highlight whose message row this is -/
